@@ -141,7 +141,7 @@ PROPS = {
         "lean_targets": ["Proofs.GenWordOps", "Proofs.GenTables"],
     },
     "C11": {
-        "extra_modules": ["C11b"],
+        "extra_modules": ["C11b", "CGenT"],
         "gens": [{"name": "mix", "quick": 900, "thorough": 4000}, {"name": "C11", "quick": 1500, "thorough": 8000},
                  {"name": "shared", "harness": "kernharness", "quick": 30, "thorough": 200}],
         "needs": ["apiharness", "kernharness"],
@@ -157,6 +157,7 @@ PROPS = {
         "lean_targets": ["Proofs.GenWordOps", "Proofs.GenTables"],
     },
     "C13": {
+        "extra_modules": ["CGenT"],
         "gens": [{"name": "mix", "quick": 900, "thorough": 4000}, {"name": "C13", "quick": 2500, "thorough": 12000}],
         "nontrivial": {"inexact", "above-leading-digit", "flags", "width", "special"},
         "rule": ARITH_RULE + "Text/Append with explicit precision 0..24 and fmt.Sprintf with verbs e E f F g G v, flags + space 0 -, width and precision, six modes; oracles: the printed value must be x rounded once at the requested position (Lean Spec), and for values that are exactly float64 in ToNearestEven the string must equal strconv.FormatFloat / fmt.Sprintf of that float64",
